@@ -19,6 +19,7 @@ PROP = {  # commit subject fragment -> (property, id)
  "recursion limit of the serde deserializer never triggers": ("C01", "F1a"),
  "publish-once caches dereference a null witness": ("C18", "F13"),
  "io::BufWriter emits the output out of order": ("C05", "F4"),
+ "Object equality is not symmetric": ("C19", "F10"),
  "loses the decoded-string race releases": ("C18", "F24"),
 }
 KNOWN = []
